@@ -22,7 +22,7 @@ int cmd_c09(int argc, char **argv) {
     fputs("],", OUT); emit_row("RR", RadRate, Z, -386, 6);
     fputs(",\"at\":[", OUT);
     double el[64]; int ne = 0; el[ne++] = 0.0; el[ne++] = -1.0;
-    for (int s = 0; s < 4; s++) { double ed = EdgeEnergy(Z, s, NULL); if (ed > 0) { el[ne++] = ed * (1 - 1e-9); el[ne++] = ed * (1 + 1e-9); el[ne++] = ed * (1 - 1e-3); el[ne++] = ed * (1 + 1e-3); } }
+    for (int s = 0; s < 4; s++) { double ed = EdgeEnergy(Z, s, NULL); if (ed > 0) { el[ne++] = ed; el[ne++] = ed * (1 - 1e-9); el[ne++] = ed * (1 + 1e-9); el[ne++] = ed * (1 - 1e-3); el[ne++] = ed * (1 + 1e-3); } }
     int in = Z >= 1 && Z <= ZMAX && NE_Photo[Z] > 0;
     if (in) { double lo = exp(E_Photo_arr[Z][0]) / 1000.0, hi = exp(E_Photo_arr[Z][NE_Photo[Z] - 1]) / 1000.0; el[ne++] = lo * (1 - 1e-6); el[ne++] = lo * (1 + 1e-6); el[ne++] = hi * (1 - 1e-6); el[ne++] = hi * (1 + 1e-3);
       int nlog = thorough ? 24 : 6; for (int i = 1; i <= nlog; i++) el[ne++] = lo * pow(hi / lo, (double)i / (nlog + 1)); }
